@@ -51,4 +51,7 @@ pub mod unit_fmt;
 #[cfg(feature = "python")]
 pub mod python;
 
+#[cfg(feature = "verif")]
+pub mod verif;
+
 pub type QueryResult = Result<QueryOutput, QueryError>;
